@@ -16,6 +16,12 @@ Open Scope string_scope.
 Inductive cat_expr :=
 | CLit (s : string)      (* a literal category: "Success" *)
 | CField (f : string)    (* a field of the action: a.Category *)
+| CElemOf (fm : string)  (* "F.M": x.M() for an x taken from the receiver's slice F by a range loop
+                            (routers/base.go routeToCategory: `for _, c := range r.categories { if .. { category = c ..`
+                            then `category.Name()`) *)
+| CAllOf (fm : string)   (* "F.M": the list of x.M() for EVERY element x of the receiver's slice F
+                            (routers/base.go EnumerateResults: `names := make([]string, len(r.categories));
+                            for i := range r.categories { names[i] = r.categories[i].Name() }`) *)
 | CExpr (e : string).    (* anything else, as source text *)
 
 Record action_row := {
@@ -30,12 +36,23 @@ Definition cat_expr_eqb (a b : cat_expr) : bool :=
   match a, b with
   | CLit x, CLit y => String.eqb x y
   | CField x, CField y => String.eqb x y
+  | CElemOf x, CElemOf y => String.eqb x y
+  | CAllOf x, CAllOf y => String.eqb x y
   | CExpr x, CExpr y => String.eqb x y
   | _, _ => false
   end.
 
 Definition str_in (s : string) (l : list string) : bool := existsb (String.eqb s) l.
 Definition cat_in (c : cat_expr) (l : list cat_expr) : bool := existsb (cat_expr_eqb c) l.
+
+(* is the category expression [c] of a saving call among the declared ones [l]?  The same expression; or an
+   element of the slice all of whose elements are declared *)
+Definition cat_covered (c : cat_expr) (l : list cat_expr) : bool :=
+  match c with
+  | CElemOf fm => cat_in (CAllOf fm) l
+  | CAllOf _ => false          (* a saving call saves one category, never a list *)
+  | _ => cat_in c l
+  end.
 
 Definition find_row (rows : list action_row) (kind ty : string) : option action_row :=
   find (fun r => String.eqb (ar_kind r) kind && String.eqb (ar_type r) ty) rows.
@@ -52,9 +69,9 @@ Definition all_lit (l : list cat_expr) : bool :=
   forallb (fun c => match c with CLit _ => true | _ => false end) l.
 
 (* the finite obligation on one row: what it can save, it declares — same name expression, and every
-   category it can save with is among the declared ones (compared as expressions) *)
+   category it can save with is among the declared ones (compared as expressions, see cat_covered) *)
 Definition row_declares_what_it_saves (r : action_row) : bool :=
   implb (ar_saves r)
         (ar_declares r
          && forallb (fun n => str_in n (ar_decl_names r)) (ar_save_names r)
-         && forallb (fun c => cat_in c (ar_decl_cats r)) (ar_save_cats r)).
+         && forallb (fun c => cat_covered c (ar_decl_cats r)) (ar_save_cats r)).
